@@ -22,7 +22,7 @@ def clip_cases(draw, convs=S.ALL_CONVS, mesh_coords_as=None, max_vars=4):
     if mesh_coords_as is not None:
         geom_kwargs["enc"] = draw(S.ugrid_encoding(coords_as=mesh_coords_as))
     spec = draw(S.dataset_spec(convs=convs, max_vars=max_vars, min_vars=2, max_extra=2,
-                               modes=("raw", "raw", "decoded", "netcdf", "dask"),
+                               modes=("raw", "raw", "decoded", "netcdf", "dask", "file"),
                                geom_kwargs=geom_kwargs))
     return {
         "spec": spec,
